@@ -280,6 +280,25 @@ theorem accept_all_at_least_as_many {c : Config α} {g : List α}
   rw [htsp] at htsp'; cases htsp'
   exact svLoop_acceptAll_ge _ _ _ _ _ _ _ _ (covered_init sim tsp) (le_refl _) hloopA hloopT
 
+/-- **the same, whatever the two pop orders**: the order in which equal-priority intersection
+vertices are popped is not defined (it depends on `HashMap` iteration and on the third-party queue),
+so two real runs of the same query may replay different pop sequences; `AcceptAll` still returns at
+least as many routes — when it does not stop at `k` routes it has drained the queue and holds, up to
+edge ids, every loop-free candidate there is, while the other run's routes are pairwise distinct
+candidates of the same queue -/
+theorem accept_all_at_least_as_many_any_order {c : Config α} {g : List α}
+    {sim : List Nat → List Nat → Except ErrKind Bool} {term : KspTerm} {source target k : Nat}
+    {fs rs popsA popsT : List Nat} {rA rT : AlgResult α}
+    (hA : singleVia c g simAcceptAll term source target k fs rs popsA = .ok rA)
+    (hT : singleVia c g sim term source target k fs rs popsT = .ok rT) :
+    rT.routes.length ≤ rA.routes.length := by
+  obtain ⟨fres, rres, tsp, solA, itA, h1, h2, htsp, hloopA, rfl⟩ := singleVia_ok hA
+  obtain ⟨fres', rres', tsp', solT, itT, h1', h2', htsp', hloopT, rfl⟩ := singleVia_ok hT
+  rw [h1] at h1'; cases h1'
+  rw [h2] at h2'; cases h2'
+  rw [htsp] at htsp'; cases htsp'
+  exact svLoop_acceptAll_ge_any_order hloopA hloopT
+
 /-! ## which failures propagate -/
 
 /-- single-via runs exactly two searches; with consistent adjacency and distinct origin and
